@@ -286,6 +286,13 @@ def restart (s : State) (u : Nat) (d : Bool) : Except Err State :=
         .ok (modFlow s1 u fun f => { f with nis := true })
     else .ok s
 
+/-- "Avoid restarting an activated flow that failed before it was started": `new_instance_started := True`
+    when the instance is still STARTING and activated (statement added to `_abort_flow` by /repo a75cc62) -/
+def markNoRestart (s : State) (u : Nat) : State :=
+  match s.flows u with
+  | some f => if f.status == .starting && f.activated > 0 then setFlow s u { f with nis := true } else s
+  | none => s
+
 /-- the part of `_abort_flow` after the deactivation block -/
 def abortBody (rec : State → Nat → Except Err State) (s : State) (u : Nat) (d : Bool) : Except Err State :=
   match s.flows u with
@@ -293,7 +300,7 @@ def abortBody (rec : State → Nat → Except Err State) (s : State) (u : Nat) (
   | some f =>
     if !f.status.listening && f.status != .stopping then .ok s
     else
-      match childLoop rec s f.children with
+      match childLoop rec (markNoRestart s u) f.children with
       | .error e => .error e
       | .ok s1 =>
         match s1.flows u with
